@@ -41,6 +41,9 @@ def tree_case(rng, tier, algo=None):
         n = min(n, 300 if tier == "quick" else 600)
     c = gen.algo_case(rng, algo, tier, n=n, T=n, fams=FAMS, dim=int(rng.integers(1, 4)))
     c["params"] = tree_params(rng, algo)
+    if algo == "VHCT" and rng.random() < 0.2:
+        # rewards with a large common offset: where a variance computed from raw moments cancels catastrophically
+        c["reward"]["family"] = str(rng.choice(["large_off", "large"]))
     if algo == "T_HOO" and rng.random() < 0.15:
         # resonant settings: nu*sqrt(n) is an exact power of 1/rho, so the published depth bound is exactly an integer
         # and '<=' vs '<' (or a re-arranged formula) decide differently
